@@ -367,7 +367,12 @@ func scenarios(quick bool) []Scenario {
 	// index): the two tie-break rules point in different directions
 	tie2Old := wh.Build{wh.F("a", "A.=1"), wh.F("b", "B.=2")}
 	tie2New := wh.Build{wh.F("b", "A.B.=3")}
+	// a new file assembled from comparable stretches of two old files (2 blocks of one, 1 of
+	// the other; the optimizer's reuse count credits each range with an extra block): which one the optimizer maps it to must not depend on map order
+	mixOld := wh.Build{wh.F("a", "A.B.C.=1"), wh.F("b", "E.F.=2")}
+	mixNew := wh.Build{wh.F("c", "A.B.E.=0123456789")}
 	out = append(out,
+		Scenario{Kind: "rediff", Old: mixOld, New: mixNew, Comp: "none", Partitions: 0, Bound: 0},
 		Scenario{Kind: "rediff", Old: tie2Old, New: tie2New, Comp: "none", Partitions: 0, Bound: b(0, 1)},
 		Scenario{Kind: "rediff", Old: tieOld, New: tieNew, Comp: "none", Partitions: 0, Bound: b(1, 2)},
 		Scenario{Kind: "rediff", Old: twoOld, New: two, Comp: "none", Partitions: 2, Bound: b(0, 1)},
